@@ -262,7 +262,11 @@ def run_property(pid, tier="quick", seed=0):
             obligations=n_ob, discharged=n_dis,
             checker_cmd=f"bin/check {pid} --tier {tier}",
             trusted_base=list(getattr(mod, "TRUSTED", [])),
-            explanation=getattr(mod, "EXPLANATION", ""),
+            explanation=getattr(mod, "EXPLANATION", "") or (
+                f"{len(fn_rows)} function(s) of the working tree under sidecar contracts: {n_ob} obligations generated by symbolic execution of the real bodies, "
+                f"{n_dis} discharged ({', '.join(f'{k}: {v}' for k, v in sorted(backends.items())) or 'none'}); "
+                f"{len(bounded_rows)} bounded stand-in(s) on the real code ({sum(b.get('cases', 0) for b in bounded_rows)} cases), never counted as proved; "
+                f"{len(known_hits)} failure(s) matched recorded findings"),
             functions_under_contract=fn_rows, lemmas=lemma_rows, bounded=bounded_rows,
             backends=backends, solver_time_s=round(solver_time, 3),
             undecided=undecided, samples=samples[:12] or ["(none)"],
